@@ -456,6 +456,40 @@ pub fn replay(_engine: &str, case: &serde_json::Value) -> Result<(), String> {
     torn(&t, &mut st)
 }
 
+/// Update schedules (one update at every access position, and every pair) for one driver's
+/// multi-field configuration read: shared with the checks of the properties that promise the value
+/// itself (block capacity: C14, 9P mount tag: C20).
+pub fn torn_items(drv: Drv, quick: bool) -> Vec<Item> {
+    let mut items = Vec::new();
+    for kind in TKS {
+        let base = baseline_accesses(drv, kind);
+        for j in 0..base * 3 + 4 {
+            items.push(Item::T(Torn { drv, kind, updates: vec![j] }));
+        }
+        let lim2 = if quick { (base * 2 + 2).min(24) } else { (base * 3 + 4).min(60) };
+        for j in 0..lim2 {
+            for k in j + 1..lim2 {
+                items.push(Item::T(Torn { drv, kind, updates: vec![j, k] }));
+            }
+        }
+    }
+    items
+}
+
+/// The PCI part of the bounds grid (shared with C11: later operations touch only the windows).
+pub fn pci_bounds_items(wmax: u32) -> Vec<Item> {
+    let mut items: Vec<Item> = (0..=wmax).map(|window| Item::B(Bounds { kind: BK::Pci, window })).collect();
+    items.push(Item::B(Bounds { kind: BK::PciNoCap, window: 0 }));
+    items
+}
+
+pub fn run_item(it: &Item, st: &mut Stats) -> Result<(), String> {
+    match it {
+        Item::B(b) => bounds(b, st),
+        Item::T(t) => torn(t, st),
+    }
+}
+
 const DRVS: [Drv; 5] = [Drv::Blk, Drv::Vsock, Drv::Console, Drv::Net, Drv::P9];
 const TKS: [TK; 3] = [TK::Model, TK::MmioModern, TK::Pci];
 
